@@ -277,6 +277,9 @@ class ArchLinuxVersion(Version):
             return NotImplemented
         return arch.vercmp(self.value, other.value) == 0
 
+    def __hash__(self):
+        return hash(arch.hash_key(self.value))
+
     def __lt__(self, other):
         if not isinstance(other, self.__class__):
             return NotImplemented
